@@ -93,4 +93,10 @@ CLAIMED['C15'] = {
     'text': 'Each public operation is proved, from the class invariant alone, to keep one entry per cycle in every stored metric and to compute exactly the documented selection / subset / chain structure; the statement for arbitrary histories follows by induction on the history. Condition-string parsing, slice-cache equivalence, chain metrics and tabular exports are decided by the bounded stand-in only and reported as not covered by the proof.',
     'note': PROOF_NOTE + '_parse_condition by contract in the unbounded units; pandas and the slice cache bounded.',
 }
+CLAIMED['C02'] = {
+    'technique': 'deductive: equivariance lemmas (strict extrema under scaling / sign flip / reversal, mirrored odd-reflection padding, scale-free Rilling and SD ratios, homogeneous iterate step, mask scaling with half-turn phase closure) discharged by z3 over the contracts that the re-run units of C04/C05 tie to the real source; bounded stand-in: the property grid (+-2^k exact, arbitrary reals within 1e-7, time reversal) over signals x option combinations with a measured guard band for ill-conditioned decisions; mask sift with ratio amplitudes',
+    'text': 'The algebraic content of the equivariance (every stage of the sift is homogeneous / mirror-symmetric given homogeneous interpolants) is proved as lemmas over the stage contracts, and the stage contracts are re-verified against the real source on every run. The relational statement for complete runs is an induction over these lemmas that is not machine-checked, and the bit-for-bit clause is floating-point behaviour: both are decided by the bounded stand-in only. Known finding: mask sift with an odd number of phases is not sign-equivariant.',
+    'note': PROOF_NOTE + 'Interpolant homogeneity, uniqueness of increasing enumerations, linearity of sums and std(cX)=|c|std(X) are assumed.',
+    'category': 'proof',
+}
 PENDING_REASON = {}
